@@ -75,7 +75,7 @@ Definition column_eqb (a b : column) : bool :=
   ident_eqb (c_name a) (c_name b) && tytok_eqb (c_type a) (c_type b) && option_eqb sdefault_eqb (c_default a) (c_default b)
   && obool_eqb (c_autoinc a) (c_autoinc b) && Bool.eqb (c_nullable a) (c_nullable b) && Bool.eqb (c_system a) (c_system b)
   && ostr_eqb (c_comment a) (c_comment b) && ostr_eqb (c_key a) (c_key b).
-Definition refcol_eqb (a b : refcol) : bool := str_eqb (rf_spec a) (rf_spec b) && ostr_eqb (rf_named a) (rf_named b).
+Definition refcol_eqb (a b : refcol) : bool := strs_eqb (rf_tokens a) (rf_tokens b) && ostr_eqb (rf_named a) (rf_named b).
 Definition tcons_eqb (a b : tcons) : bool :=
   match a, b with
   | CPk c n, CPk c' n' => idents_eqb c c' && cname_eqb n n'
@@ -143,31 +143,38 @@ Definition is_opaque (o:top_op) : bool := match o with TOpaque => true | _ => fa
 Definition c08_in := (cfg * list top_op)%type.
 (* o_parsed: the rendered text parsed by CPython's ast (None = SyntaxError);
    o_exec: the operation objects invoked when the text is executed under Operations (None = it raised);
-   o_sql_same: executing the text and invoking the operation objects emit the same SQL on every dialect *)
-Record c08_out := mkOut { o_parsed : option (list pystmt); o_exec : option (list top_op); o_sql_same : bool }.
+   o_sql_same: executing the text and invoking the operation objects emit the same SQL on every dialect;
+   o_imports: autogen_context.imports after the rendering (the dialect names of its  from sqlalchemy.dialects import <d>
+              lines; the harness encodes any other line as itself, which is never a dialect name).
+   The text is executed in a namespace that holds the two configured module names and what o_imports binds -- nothing else. *)
+Record c08_out := mkOut { o_parsed : option (list pystmt); o_exec : option (list top_op); o_sql_same : bool;
+                          o_imports : list str }.
 
 (* CreateTableOp.to_table builds the referred table of an inline ForeignKey from ForeignKey._get_colspec(), which names the
    referred column by its KEY: invoked directly, such an operation emits REFERENCES t2 (<key>), while the rendered code, where
    _fk_colspec has translated the key into the database name, emits REFERENCES t2 (<name>).  fk_by_name: no referred column
    of the operation has a name different from its key spec (then both paths agree). *)
-Definition ref_by_name (r:refcol) : bool := match rf_named r with Some n => str_eqb n (rf_spec r) | None => true end.
+Definition ref_by_name (r:refcol) : bool := match rf_named r with Some n => str_eqb n (last (rf_tokens r) []) | None => true end.
 Definition cons_by_name (k:tcons) : bool := match k with CFk _ refs _ _ _ _ _ _ _ => forallb ref_by_name refs | _ => true end.
 Definition fk_by_name (o:top_op) : bool := match o with TCreateTable t => forallb cons_by_name (t_cons t) | _ => true end.
 
 Definition model_C08 (i:c08_in) : c08_out :=
   let (c, ops) := i in
   let st := render_ops c ops in
-  let ev := eval_stmts c st in
-  mkOut (Some st) ev (match ev with Some l => ops_eqb l (expected c ops) && forallb fk_by_name ops | None => false end).
+  let imps := render_imports ops in
+  let ev := eval_in c imps st in
+  mkOut (Some st) ev (match ev with Some l => ops_eqb l (expected c ops) && forallb fk_by_name ops | None => false end) imps.
 
 (* an input that contains an operation outside the modelled universe carries no model statement: there the comparison is
    vacuous and only the decider speaks (such an input is never in the class: can_top TOpaque = false) *)
+Definition set_eqb (a b : list str) : bool := forallb (fun x => memb x b) a && forallb (fun x => memb x a) b.
 Definition corr_C08 (i:c08_in) (o:c08_out) : bool :=
   existsb is_opaque (snd i) ||
   let m := model_C08 i in
   option_eqb (list_eqb pystmt_eqb) (o_parsed m) (o_parsed o)
   && option_eqb ops_eqb (o_exec m) (o_exec o)
-  && Bool.eqb (o_sql_same m) (o_sql_same o).
+  && Bool.eqb (o_sql_same m) (o_sql_same o)
+  && set_eqb (o_imports m) (o_imports o).
 
 (* ---------------------------------------------------------------- naming conventions
    SQLAlchemy passes a plain constraint / index name through the convention of its MetaData again when the convention
@@ -199,13 +206,15 @@ Definition names_agree (nc:bool) (a b : list top_op) : bool :=
 (* ---------------------------------------------------------------- the property *)
 Definition exec_names_ok (i:c08_in) (o:c08_out) : bool :=
   match o_exec o with Some l => names_agree (cfg_nc (fst i)) l (expected (fst i) (snd i)) | None => true end.
-(* the rendered text itself, read back the way the Operations proxies read it, denotes the operations that were asked for
-   (key-erased): a keyword argument or a character of a literal that goes missing in the text is a different operation.
+(* the rendered text itself, read back the way the Operations proxies read it IN THE NAMESPACE OF THE GENERATED FILE (the two
+   configured module names and the imports that were collected, eval_in: no free names), denotes the operations that were
+   asked for (key-erased): a keyword argument or a character of a literal that goes missing in the text is a different
+   operation, a dialect module that is used but not imported is a NameError.
    Inputs outside the modelled universe (TOpaque) have no such statement. *)
 Definition reads_back (i:c08_in) (o:c08_out) : bool :=
   existsb is_opaque (snd i) ||
   match o_parsed o with
-  | Some st => match eval_stmts (fst i) st with Some l => ops_eqb l (expected (fst i) (snd i)) | None => false end
+  | Some st => match eval_in (fst i) (o_imports o) st with Some l => ops_eqb l (expected (fst i) (snd i)) | None => false end
   | None => false
   end.
 Definition C08_holds (i:c08_in) (o:c08_out) : Prop :=
